@@ -7,6 +7,7 @@
 import ShVerif.Proofs.L4PrintGen
 import ShVerif.Proofs.L4Single
 import ShVerif.Proofs.L4ParseWF
+import ShVerif.Props.C01
 namespace ShVerif.Props.C02
 open ShVerif ShVerif.L4
 
@@ -214,6 +215,64 @@ theorem idempotent_singleLine_src (o : Opts) (l : Lang) (src : Bytes) (f : File)
     (hsrc : parse l src = .ok f) (hne : f.stmts ≠ .nil) (hp : printFile o f = .ok b) : reprint o l b = .ok b := by
   obtain ⟨hwf, hmono⟩ := parse_wf_posMono l src f hsrc
   exact reprint_singleLine o l f b hsl hwf hmono hne hp
+
+/-! ## A word printed on its own -/
+
+/-- `Print(Word)` writes the bytes of the parts, whatever the options and the positions -/
+theorem printWord_bytes (o : Opts) (hr : refuse o = false) (w : Word) (hw : w.wf = true) :
+    printWord o w = .ok (wordBytes w.parts) := by
+  obtain ⟨pos, hpos⟩ := Word.wf_pos hw
+  have hne := Word.wf_parts_ne hw
+  unfold printWord
+  simp only [hr, Bool.false_eq_true, ↓reduceIte, hpos]
+  cases hparts : w.parts with
+  | nil => exact absurd hparts hne
+  | cons wp rest =>
+    have hpl : wp.pos.line = pos.line := by
+      simp only [Word.pos?, hparts, List.head?_cons, Option.map_some, Option.some.injEq] at hpos
+      rw [← hpos]
+    have hI : Inv 0 (({ (P.init o) with line := pos.line } : P).word w) :=
+      Inv.word (n := 0) (p := { (P.init o) with line := pos.line }) ⟨rfl, rfl⟩ w hw
+    rw [hI.finish]
+    simp only [Except.ok.injEq]
+    simp only [P.word, P.wordParts, hparts, hpl, Nat.lt_irrefl, decide_false, Bool.and_false, Bool.false_eq_true,
+      ↓reduceIte]
+    have hout : ∀ (q : P) (wps : List WordPart), (q.wordPartsLoop wps).out = q.out := by
+      intro q wps
+      induction wps generalizing q with
+      | nil => rfl
+      | cons x xs ih =>
+        unfold P.wordPartsLoop
+        rw [ih]
+        cases x <;> rfl
+    simp [hout, P.init, render, Piece.bytes]
+
+/-- **Idempotence for a word printed on its own** (every option set): lexing the printed word and
+    printing the result gives the same bytes. -/
+theorem idempotent_word (o : Opts) (w : Word) (hw : w.wf = true) (b : Bytes) (hp : printWord o w = .ok b)
+    (parts : List WordPart) (stop : Pos) (hl : lexWord b ⟨0, 1, 1⟩ .idle [] = .done parts stop []) :
+    printWord o ⟨parts⟩ = .ok b := by
+  have hr : refuse o = false := by
+    cases h : refuse o with
+    | false => rfl
+    | true => unfold printWord at hp; simp [h] at hp
+  rw [printWord_bytes o hr w hw] at hp
+  cases hp
+  obtain ⟨parts2, stop2, h1, h2⟩ := ShVerif.Props.C01.roundtrip_word o w hw _ (printWord_bytes o hr w hw)
+  rw [hl] at h1
+  cases h1
+  -- the lexed parts are well formed
+  obtain ⟨x, t, hx, hsafe⟩ := wordBytes_head w.parts (Word.wf_parts_ne hw) (Word.wf_parts hw)
+  rw [hx] at hl
+  obtain ⟨_, hwf2, _⟩ := lexWord_start_ok x t ⟨0, 1, 1⟩ parts stop [] [] (by rcases hsafe with h | h <;> simp [h]) hl
+    (by simp [Sorted])
+  rw [printWord_bytes o hr ⟨parts⟩ hwf2]
+  congr 1
+  have hp1 := normParts_plain parts (Word.wf_parts hwf2)
+  have hp2 := normParts_plain w.parts (Word.wf_parts hw)
+  rw [wordBytes_norm parts hp1, wordBytes_norm w.parts hp2]
+  show nwordBytes (normParts parts) = nwordBytes w.norm
+  rw [h2]
 
 /-! ## Stated, not proved
 
